@@ -64,6 +64,7 @@ RULES = {
     "R16": RR.r16_ctor_funnel,
     "R16l": RR.r16_literals_only,
     "R14t": _get(PR, "r14_seed_untracked"),
+    "R54": _get(DT, "r54_no_flat_pairing_in_forward"),
     "R17": RR.r17_eq_fields,
     "R20": RR.r20_ownership_edges,
     "R8": _get(OR, "r8_attach_iff_tracked"),
@@ -115,7 +116,7 @@ PROPERTY_RULES = {
     "C01": ["R9", "R8", "R5", "R27", "R6", "R24", "R11", "R25", "R23", "R26", "R45", "R10", "R33", "R12", "R13", "R15", "R29", "R31", "R32", "R39", "R51"],
     "C02": ["R12", "R13", "R15", "R9", "R33", "R29", "R31", "R30", "R32", "R39", "R11", "R45", "R51"],
     "C03": ["R11", "R21"],
-    "C04": ["R40", "R41", "R47"],
+    "C04": ["R40", "R41", "R47", "R54"],
     "C05": ["R36", "R38", "R40c", "R41", "R49"],
     "C06": ["R37", "R30"],
     "C07": ["R35", "R16", "R32"],
@@ -124,7 +125,7 @@ PROPERTY_RULES = {
     "C10": ["R23", "R20", "R25", "R9", "R11", "R10", "R26", "R24", "R44", "R53"],
     "C11": ["R24", "R5", "R27", "R6", "R26", "R9", "R25"],
     "C12": ["R5", "R27", "R3", "R6", "R7", "R17", "R23", "R47"],
-    "C13": ["R21", "R22", "R28", "R42", "R43", "R46", "R48", "R53"],
+    "C13": ["R21", "R22", "R28", "R42", "R43", "R46", "R48", "R53", "R23"],
     "C14": ["R21", "R28", "R22", "R20", "R24", "R23", "R42", "R43", "R9", "R46", "R52"],
     "C15": ["R34", "R30"],
     "C16": ["R16", "R3", "R17", "R41"],
